@@ -261,7 +261,9 @@ func (j *jsonReader) getMap() map[string]any {
 	if j.current != nil {
 		return j.current
 	}
-	j.current = j.value[0].(map[string]any)
+	// A value which is not a JSON object has no members: reading from a nil map is safe
+	// and makes it an item without tag nor value, which every typed read rejects.
+	j.current, _ = j.value[0].(map[string]any)
 	return j.current
 }
 
